@@ -52,7 +52,7 @@ __CPROVER_assigns(LOG_ASG(FN_CHECKREV));
 //@sub /Clipper64_Execute\(&c, ([^;]*?),\s*&\(\*self->solution\)\)/Clipper_Execute1(&c, \1, self->solution)/ min=2
 __CPROVER_requires(NOCALLS && g_ncopy == 0 && g_ndgo == 0 && __CPROVER_is_fresh(self, sizeof(*self)) && __CPROVER_is_fresh(self->solution, sizeof(VTok)) && self->solution->tok == 777)
 __CPROVER_requires(self->groups_.size < ((size_t)1 << 40) && __CPROVER_is_fresh(self->groups_.data, self->groups_.size * sizeof(Group)))
-__CPROVER_requires((self->solution_tree == NULL || __CPROVER_is_fresh(self->solution_tree, sizeof(OTok))) && !__CPROVER_isnand(delta) && !__CPROVER_isnand(self->miter_limit_))
+__CPROVER_requires((self->solution_tree == NULL || __CPROVER_is_fresh(self->solution_tree, sizeof(OTok))) && !__CPROVER_isnand(delta) && !__CPROVER_isnand(self->miter_limit_) && BOOL_OK(self->reverse_solution_) && BOOL_OK(self->preserve_collinear_))
 __CPROVER_ensures(self->error_code_ == 0)
 __CPROVER_ensures(self->groups_.size == 0 ==> (NOCALLS && g_ncopy == 0 && g_ndgo == 0))
 /* |delta| < 0.5: the region is left unchanged — input paths are copied, nothing is offset */
